@@ -30,8 +30,9 @@ CLAIMED = {
                 "proved equal to the frozen list and every table word is proved not to be split. The error of a refused phrase is specified too (exec_group / text2digits, "
                 "both directions). " + DRV + "NOT proved: the composition for pt, it, de, nl (bounded evidence only); fully hyphenated French and the glued compounds "
                 "of de/nl/it beyond 'the group result is placed as a whole under the Overlap guard' (the daachorse automaton and str::split are assumed); the same phrase "
-                "found inside a sentence by the scanner (only the generic scanner theorems of C06/C07 apply); the text-level corollary for text2digits is the driver theorem "
-                "plus text2digits' own two-directional contract, both machine-checked, composed on paper.",
+                "found inside a sentence by the scanner (only the generic scanner theorems of C06/C07 apply). For interpreters that declare a word model (en, es, fr) exec_group and text2digits "
+                "have a functional contract: the result IS the fold of that model over the words (text2digits: over the lower-cased, whitespace-separated words, rendered by the language), "
+                "so the text-level statement is the driver theorem substituted into text2digits' contract (two units, both machine-checked, one substitution on paper).",
         "note": TRUST + "Known finding (German 'eine Million') listed in known_findings.txt. A-SPLIT / A-DASH (English hyphenated words): str::split('-') is an uninterpreted "
                 "function with the axiom 'two dash-free pieces joined by one dash split back into those pieces', and the hoisted call exec_group(word.split('-')) is assumed to "
                 "compute the fold of the word model over the parts. Bounded evidence for the languages without driver (thorough tier only, never counted as "
@@ -76,10 +77,18 @@ CLAIMED = {
         "text": "WordToDigitParser::push / string_and_value contracts: a decimal-separator word is accepted only after a non-ordinal number, only once, and is reported "
                 "as Incomplete; integer and fractional parts live in two builders; the rendered text is int + mark + frac through the language's "
                 "format_decimal_and_value (proved per language: exactly int ++ ',' (en: '.') ++ frac with every digit and leading zero of both parts, value exactly "
-                "parse_f64(int.frac)); DigitString::push appends verbatim; "
-                "German apply_decimal is proved to be digit dictation. NOT proved: whole-phrase decimal round trip (composition).",
-        "note": TRUST + MECH + "f64 values are defined as parse_f64 of the rendered digits (assumed).",
-        "design_ref": "DESIGN.md §12.3 C05",
+                "parse_f64(int.frac)); DigitString::push appends verbatim; English and German apply_decimal are proved to be digit dictation. "
+                "COMPOSITION, proved for English, Spanish and French in two machine-checked halves: (a) generic in the language (unit scan, `drive_parser`): the real parser - new, push for "
+                "every word of a stream in order, string_and_value - computes the parser fold of the language's word model and fraction-word model (for interpreters that declare such models; "
+                "push has a functional contract for them) and renders it as int, mark, frac when a separator was seen and fraction digits followed; (b) per language "
+                "(lemma_en_decimal, lemma_es_decimal, lemma_fr_decimal): for every z, every n below 10^12 and every fraction (English: any non-empty sequence of dictated digits; Spanish / French: "
+                "any number of zero words followed by the spelling of any m in [1, 10^12)), the parser fold over 'zeros spell(n) separator fraction' ends with the integer builder holding exactly "
+                "the zeros and the digits of n, the fraction builder holding exactly the fraction's digits with its leading zeros, and the separator seen. The decimal round trip for these three "
+                "languages is the substitution of (b) into (a). NOT proved: that substitution inside one verifier query (the two halves live in different units); pt, it, de, nl (bounded evidence only); "
+                "the same phrase found inside a sentence by the scanner.",
+        "note": TRUST + MECH + "f64 values are defined as parse_f64 of the rendered digits (assumed). The per-language lemmas write the interpreter's spec methods (word_res, dec_res, decsep_spec) out as "
+                "their defining functions (en_word_res, ...): a spec closure that captures the interpreter value upsets an unrelated obligation in this Verus version.",
+        "design_ref": "DESIGN.md §12.3 C05, §13.8",
     },
     "C06": {
         "text": "Scanner invariant proved for all token streams, generically in the language, token type and iterator: occurrences have non-empty spans inside the "
